@@ -194,6 +194,7 @@ func checkC11(p *Prog, res *Result, tier string) {
 	res.rule("C11-R3", "iterator keys are checked against the end bound; an iterator reads at the caller's timestamp or at one read from the oracle, never at a constant", 3)
 	res.rule("C11-R5", "metrics wrapper forwards each overridden method exactly once with parameters in order", 8)
 	res.rule("C11-R6", "Get returns the ErrKeyNotFound sentinel itself", 3)
+	res.rule("C11-R8", "the in-process engine's iterator yields snapshot copies: live skip-list elements are dereferenced only under the store lock (C19-R3)", 2)
 	res.rule("C11-R7", "reported partitions are clamped into the requested interval", 3)
 
 	table := map[string]map[string][]string{}
@@ -277,9 +278,20 @@ func checkC11(p *Prog, res *Result, tier string) {
 	checkCommitStructure(p, r, res)
 	checkIterBounds(p, r, res)
 	checkIterSnapshot(p, r, res)
+	checkWrittenValue(p, r, res)
+	checkOracleAPI(p, r, res)
 	checkWrapperTransparency(p, r, res)
 	checkNotFoundIdentity(p, r, res, "C11-R6")
 	checkPartitionClamp(p, r, res, "C11-R7")
+	{
+		sub19 := newResult("C19")
+		checkElementAccess(p, p.lockContext(), sub19)
+		for _, o := range sub19.Obls {
+			if strings.Contains(o.Construct, "pkg/storage/memkv") {
+				res.add("C11-R8", o.Rule+" "+o.Construct, o.Status, o.Pos, o.Detail)
+			}
+		}
+	}
 }
 
 // ---------- R2 ----------
@@ -634,6 +646,86 @@ func boundCheckers(p *Prog, sp *ssa.Package) map[*ssa.Function]bool {
 		}
 	}
 	return out
+}
+
+// checkWrittenValue: what Put / CAS / PutIfNotExist hand to the engine as the value to store is their own value
+// parameter (not the value they read back for the comparison, not the expected value).
+func checkWrittenValue(p *Prog, r *Roles, res *Result) {
+	for _, ap := range []string{"pkg/storage/badger", "pkg/storage/tikv"} {
+		short := ap[strings.LastIndex(ap, "/")+1:]
+		for _, m := range []*types.Func{r.BWPut, r.BWCAS, r.BWPutIfNotExist} {
+			f := p.implIn(m, ap)
+			if f == nil {
+				continue
+			}
+			valParam := f.Params[2] // receiver, key, value
+			n, bad := 0, ""
+			for _, g := range withAnon(f) {
+				for _, c := range callsIn(g) {
+					if !isEngineCall(c, "Set", "NewEntry") {
+						continue
+					}
+					args := c.Common().Args
+					if len(args) < 2 {
+						continue
+					}
+					v := args[len(args)-1]
+					if _, isSlice := v.Type().Underlying().(*types.Slice); !isSlice {
+						continue
+					}
+					n++
+					if p.resolveDeep(v) != ssa.Value(valParam) {
+						bad = p.pos(c.Pos())
+					}
+				}
+			}
+			construct := fmt.Sprintf("%s.%s: the value written is the value parameter", short, m.Name())
+			switch {
+			case n == 0:
+				res.und("C11-R1", construct, p.pos(f.Pos()), "no engine write found")
+			case bad != "":
+				res.bad("C11-R1", construct, bad, "the engine is given a value other than the operation's new value (e.g. the value read back for the comparison): the operation reports success and stores something else")
+			default:
+				res.ok("C11-R1", construct, p.pos(f.Pos()), fmt.Sprintf("%d engine write(s), all of parameter %q", n, valParam.Name()))
+			}
+		}
+	}
+}
+
+// checkOracleAPI: the TiKV adapter's timestamp oracle asks PD for a fresh timestamp (Oracle.GetTimestamp); the cached
+// low-resolution / stale variants of the client lag behind commits made through another client of the pool.
+func checkOracleAPI(p *Prog, r *Roles, res *Result) {
+	f := p.implIn(r.KVGetTSO, "pkg/storage/tikv")
+	if f == nil {
+		return
+	}
+	construct := "tikv.GetTimestampOracle: fresh PD timestamp"
+	n, bad := 0, ""
+	for _, g := range withAnon(f) {
+		for _, c := range callsIn(g) {
+			name := ""
+			if c.Common().IsInvoke() {
+				name = c.Common().Method.Name()
+			} else if sc := c.Common().StaticCallee(); sc != nil && sc.Pkg != nil && strings.Contains(sc.Pkg.Pkg.Path(), "tikv") {
+				name = sc.Name()
+			}
+			if !strings.Contains(name, "Timestamp") && !strings.Contains(name, "TS") {
+				continue
+			}
+			n++
+			if name != "GetTimestamp" && name != "GetTimestampAsync" {
+				bad = name
+			}
+		}
+	}
+	switch {
+	case n == 0:
+		res.und("C11-R6", construct, p.pos(f.Pos()), "no oracle call found")
+	case bad != "":
+		res.bad("C11-R6", construct, p.pos(f.Pos()), "the oracle is read through "+bad+", which may return a cached timestamp older than commits already acknowledged through another client: a new leader can start below revisions the old leader used")
+	default:
+		res.ok("C11-R6", construct, p.pos(f.Pos()), "Oracle.GetTimestamp")
+	}
 }
 
 // checkIterSnapshot: where an adapter's Iter hands a read timestamp to its engine (tikv GetSnapshot, a managed badger
